@@ -76,7 +76,7 @@ impl<'c, KD: Kind, const N: usize> MapEng<'c, KD, N> {
             let mut d = m.drain();
             let mut ended = false;
             for _ in 0..take {
-                hints.push((d.len(), d.size_hint()));
+                hints.push(mmv_base::probe::hint_of(&d));
                 match Self::lib(cx, || d.next()) {
                     Ok(Some((k, v))) => yielded.push(ykv::<KD>(&k, &v)),
                     Ok(None) => {
@@ -102,7 +102,7 @@ impl<'c, KD: Kind, const N: usize> MapEng<'c, KD, N> {
                 1 => {
                     let mut guard = 0;
                     while !ended {
-                        hints.push((d.len(), d.size_hint()));
+                        hints.push(mmv_base::probe::hint_of(&d));
                         match Self::lib(cx, || d.next()) {
                             Ok(Some((k, v))) => yielded.push(ykv::<KD>(&k, &v)),
                             Ok(None) => ended = true,
@@ -118,7 +118,7 @@ impl<'c, KD: Kind, const N: usize> MapEng<'c, KD, N> {
                         }
                     }
                     for _ in 0..3 {
-                        let none = d.next().is_none();
+                        let none = mmv_base::probe::ended_none(&mut d);
                         cx.chk(P10, none, "not-fused", || "drain yielded an item after returning None".into());
                     }
                     if let Err(p) = Self::lib(cx, move || drop(d)) {
@@ -236,7 +236,7 @@ impl<'c, KD: Kind, const N: usize> MapEng<'c, KD, N> {
                     let mut pout: Option<ProbeOut<Y>> = None;
                     let mut it = $mk;
                     loop {
-                        hints.push((it.len(), it.size_hint()));
+                        hints.push(mmv_base::probe::hint_of(&it));
                         if ys.len() == cut {
                             pout = Some(probe(cx, KD::NOALLOC, it.clone(), pwhich, pk, N, $ext));
                             let c1 = it.clone();
@@ -263,7 +263,7 @@ impl<'c, KD: Kind, const N: usize> MapEng<'c, KD, N> {
                         }
                     }
                     for _ in 0..3 {
-                        let none = it.next().is_none();
+                        let none = mmv_base::probe::ended_none(&mut it);
                         cx.chk(P09, none, "not-fused", || format!("{} yielded an item after returning None", $name));
                     }
                     let total = ys.len();
@@ -297,7 +297,7 @@ impl<'c, KD: Kind, const N: usize> MapEng<'c, KD, N> {
                     let mut dbg: Option<(usize, String)> = None;
                     let mut it = $mk;
                     loop {
-                        hints.push((it.len(), it.size_hint()));
+                        hints.push(mmv_base::probe::hint_of(&it));
                         if ys.len() == cut && want_fmt {
                             if let Ok(o) = fmt_debug::<KD>(cx, &it, false) {
                                 dbg = Some((ys.len(), o));
@@ -317,7 +317,7 @@ impl<'c, KD: Kind, const N: usize> MapEng<'c, KD, N> {
                         }
                     }
                     for _ in 0..3 {
-                        let none = it.next().is_none();
+                        let none = mmv_base::probe::ended_none(&mut it);
                         cx.chk(P09, none, "not-fused", || format!("{} yielded an item after returning None", $name));
                     }
                     if let Some((at, out)) = &dbg {
@@ -551,7 +551,7 @@ impl<'c, KD: Kind, const N: usize> MapEng<'c, KD, N> {
                     let mut it = $mk;
                     let mut ended = false;
                     for _ in 0..take {
-                        hints.push((it.len(), it.size_hint()));
+                        hints.push(mmv_base::probe::hint_of(&it));
                         match Self::lib(cx, || it.next()) {
                             Ok(Some(x)) => yielded.push(($ext)(x)),
                             Ok(None) => {
@@ -594,7 +594,7 @@ impl<'c, KD: Kind, const N: usize> MapEng<'c, KD, N> {
                         1 => {
                             let mut guard = 0;
                             while !ended {
-                                hints.push((it.len(), it.size_hint()));
+                                hints.push(mmv_base::probe::hint_of(&it));
                                 match Self::lib(cx, || it.next()) {
                                     Ok(Some(x)) => yielded.push(($ext)(x)),
                                     Ok(None) => ended = true,
@@ -610,7 +610,7 @@ impl<'c, KD: Kind, const N: usize> MapEng<'c, KD, N> {
                                 }
                             }
                             for _ in 0..3 {
-                                let none = it.next().is_none();
+                                let none = mmv_base::probe::ended_none(&mut it);
                                 cx.chk(P10, none, "not-fused", || format!("{} yielded an item after returning None", $name));
                             }
                             if let Err(p) = Self::lib(cx, move || drop(it)) {
